@@ -308,6 +308,11 @@ _amend('C18', 'Undecided multiple paths of unsigned 32- / 64-bit types are refut
 _amend('C19', 'The lowp vec3 specialisation of convertLinearToSRGB is the published root approximation c1 x^(1/2) + c2 x^(1/4) - c3 x^(1/8) - c4 x per component (constants as cited, s(1) = 1); its accuracy against the exact curve is not re-derived.')
 _amend('C10', 'Narrowing: a conversion to a narrower float format inside the term of a double result (a double value stored in a float temporary) refutes the entry - the normal forms read float arithmetic as exact and would not see it. The same test runs in the polynomial rules of C02 and in every rule built on spec.compare.')
 _amend('C14', 'A step term that is not a next-after chain on the component is evaluated exactly at sample values and refuted when it is not the n-th neighbour in the component\'s own format.')
+_amend('C02', 'scalar + matrix and scalar - matrix (square shapes only) are part of the element-wise rule set.')
+_amend('C18', 'bitfieldInterleave: a result bit that is not a plain selection of an operand bit is evaluated at the one-hot input that should set only that bit.')
+_amend('C11', 'modf that is not the library call is evaluated at -3, -0, +-inf and +-2.5: both parts carry the sign of x and the fraction of an infinity is a zero.')
+_amend('C06', 'A pack field whose shape is not conv(round(clamp * S)) is evaluated at component values whose scaled value is not a tie and refuted when the code is not round(clamp(v) * S).')
+_amend('C04', 'Undecided regimes of the angle / axis round trip are refuted when the derived lanes, evaluated at unit quaternions on both sides of the asin / acos switch (host libm, tolerance 1e-3), are neither q nor -q.')
 _amend('C04', 'Narrowing (rules/narrow.py): no lane term of a kernel with a double result may contain a conversion to a narrower float format (a double value stored in a float temporary has float accuracy only, which the exact-arithmetic normal forms cannot see); kernels with float inputs are exempt.')
 _amend('C08', 'Narrowing (rules/narrow.py): no lane term of a kernel with a double result may contain a conversion to a narrower float format (a double value stored in a float temporary has float accuracy only, which the exact-arithmetic normal forms cannot see); kernels with float inputs are exempt.')
 _amend('C09', 'Narrowing (rules/narrow.py): no lane term of a kernel with a double result may contain a conversion to a narrower float format (a double value stored in a float temporary has float accuracy only, which the exact-arithmetic normal forms cannot see); kernels with float inputs are exempt.')
